@@ -867,6 +867,7 @@ Definition step (c : conn) (l : label) : option (conn * list obs) :=
     match pc (t_disc c), finish_fut c, disc_wait_done c with
     | PD_Wait, FDone, false => Some (c <| disc_wait_done := true |> <| disc_timer := None |>, [])
     | PD_Wait, FNone, false => Some (c <| disc_wait_done := true |> <| disc_timer := None |>, [])
+    | PD_Wait, FDone, true => Some (c, [])   (* the wait has timed out already: the late completion callback finds its waiter done *)
     | _, _, _ => None
     end
   | LConnLostCb =>
